@@ -311,6 +311,8 @@ def _alt_lean(confs, path_ok=None):
             ok = (path_ok or {}).get((i, pc["name"]))
             if ok and ok[0]:
                 lines.append("theorem %s_wf : Spec.pathConfOk %sEnv %s = true := by decide +kernel" % (pn, n, pn))
+            if ok and ok[2]:      # the template half: what c05_roundtrip / c05_injective ask (with _exclusive)
+                lines.append("theorem %s_tpls : Spec.pathTplsOk %sEnv %s = true := by decide +kernel" % (pn, n, pn))
             if ok and ok[1]:
                 lines.append("theorem %s_exclusive : Spec.pathsExclusive %sEnv %sConf.sid.searchSymbols %s = true := by decide +kernel" % (pn, n, n, pn))
     lines.append("end AltWF")
@@ -371,14 +373,19 @@ def oracle_C20(run, n, fams=None, oracles=None, tag="C20", kernel=True):
     path_ok = {}
     for i, c in enumerate(confs):
         a = core.run_model(c, [{"op": "spec_path_ok"}])[0].get("ok") or []
-        for name_, wf, excl in a:
-            path_ok[(i, name_)] = (wf, excl)
+        for name_, wf, excl, tpls in a:
+            path_ok[(i, name_)] = (wf, excl, tpls)
             stats["path_configurations"] += 1
-            stats["path_conventions_hold"] += int(bool(wf and excl))
-        if any(not (wf and excl) for _, wf, excl in a):
-            run.notes.append("generated configuration %d: path configurations %r do not follow Spec.pathConfOk / pathsExclusive "
-                             "(two disk words for one sid value, or a default for a free key): C05 / C06 are not PROVED for them, "
-                             "they are covered by the correspondence and the oracles only" % (specs[i], [n_ for n_, wf, excl in a if not (wf and excl)]))
+            stats["c05_conventions_hold(pathTplsOk+pathsExclusive)"] += int(bool(tpls and excl))
+            stats["c06_total_conventions_hold(pathConfOk)"] += int(bool(wf))
+        if any(not wf for _, wf, excl, tpls in a):
+            run.notes.append("generated configuration %d: path configurations %r do not follow Spec.pathConfOk (two disk words for one "
+                             "sid value, or a default for a free template key): c06_total ('never raises') is not PROVED for them — "
+                             "correspondence and oracles only; c06_owner needs no convention, and C05 needs the template half only"
+                             % (specs[i], [n_ for n_, wf, excl, tpls in a if not wf]))
+        if any(not (tpls and excl) for _, wf, excl, tpls in a):
+            run.notes.append("generated configuration %d: path configurations %r do not follow pathTplsOk / pathsExclusive: C05 is not PROVED "
+                             "for them" % (specs[i], [n_ for n_, wf, excl, tpls in a if not (tpls and excl)]))
     if kernel:
         thms = _alt_lean(confs[:k], path_ok)
         ok, out = core.lake_build(["Spil.Generated.AltWF"])
